@@ -15,7 +15,8 @@ def run(ctx):
     quick = ctx.tier == "quick"
     runs = [("basic", "mem", 600 if quick else 6000, "core_failures"),
             ("all", "mem", 1200 if quick else 15000, "failures"),
-            ("all", "db:2", 300 if quick else 3000, "failures")]
+            ("all", "db:2", 300 if quick else 3000, "failures"),
+            ("tfc", "mem", 300 if quick else 5000, "failures")]
     total, dis_all, dists, real_fail, samples, hist_total, changeback = 0, [], {}, [], [], 0, []
     execs = noexec = 0
     for k, (mode, cfg, n, fn) in enumerate(runs):
